@@ -79,6 +79,38 @@ func c19Step(x *engine.Exec) []engine.Failure {
 	return out
 }
 
+// c19Late executes the transition once more after the whole subtree below its successor has been executed on the same
+// App: anything the module keeps outside the branchable stores (keeper fields, package variables, caches keyed by
+// height or address) has been exercised by other branches in the meantime; the result must still be byte-identical.
+func c19Late(x *engine.Exec) []engine.Failure {
+	w := x.W
+	var out []engine.Failure
+	r := w.Exec(x.Prev.Ctx, x.Op)
+	x.Cnt.Inc("transition.repeated_after_subtree")
+	es := func(e error) string {
+		if e == nil {
+			return ""
+		}
+		return e.Error()
+	}
+	if es(r.Err) != es(x.Res.Err) || r.Rejected != x.Res.Rejected || r.Panicked != x.Res.Panicked {
+		out = append(out, fail("result", "after-other-branches", "%s: result differs when the transition is executed again after other branches ran on the same App: %q vs %q", x.Op.String(), es(x.Res.Err), es(r.Err)))
+	}
+	if w.Hash(r.Ctx, allMounted) != w.Hash(x.Res.Ctx, allMounted) {
+		diff := ""
+		for _, st := range allMounted {
+			if w.Hash(r.Ctx, []string{st}) != w.Hash(x.Res.Ctx, []string{st}) {
+				diff += st + " "
+			}
+		}
+		out = append(out, fail("state", "after-other-branches", "%s: store content differs when the transition is executed again after other branches ran on the same App (stores: %s)", x.Op.String(), diff))
+	}
+	if eventsString(r.Events) != eventsString(x.Res.Events) {
+		out = append(out, fail("events", "after-other-branches", "%s: events differ when the transition is executed again after other branches ran on the same App", x.Op.String()))
+	}
+	return out
+}
+
 // ---- static rule -----------------------------------------------------------------------------------------------
 
 type exportLookup struct{ m map[string]string }
@@ -251,7 +283,23 @@ func init() {
 				Required: []string{"transition.repeated", "cross_world.states_compared"},
 			}
 			s4 := unionScenarioDepth("C19", "c19-union", tier, c19Step, nil, tierPick(tier, 3, 5))
-			return []*engine.Scenario{s1, s2, s3, s4}
+			// governance-heavy histories: every accepted params/asset update followed by the readers of those values (asset
+			// creation reads the reward delay, the end of block reads the take-rate clock) on many sibling branches of one height
+			gcfg := world.DefaultConfig()
+			gcfg.DelFunds["zzz"] = "1000000"
+			s5 := &engine.Scenario{
+				Property: "C19", Name: "c19-governance", Cfg: gcfg, Stores: world.ModuleStores,
+				Seeds:      [][]world.Op{{opDel(0, 0, "aaa", "10"), opDel(1, 1, "aaa", "3"), opBlock(1)}},
+				ClassNames: classNames, Budgets: tierPick(tier, []int{1, 0, 0, 2, 2}, []int{1, 1, 1, 3, 2}), MaxDepth: tierPick(tier, 4, 6),
+				Ops: c17Ops(tier, false), Step: c19Step,
+				Expand:   func(x *engine.Exec) bool { return !x.Res.Rejected && x.Res.Err == nil },
+				Required: []string{"transition.repeated"},
+			}
+			for _, sc := range []*engine.Scenario{s1, s2, s3, s4, s5} {
+				sc.Late = c19Late
+				sc.Required = append(sc.Required, "transition.repeated_after_subtree")
+			}
+			return []*engine.Scenario{s1, s2, s3, s4, s5}
 		},
 		Extra:       func(tier string) ([]engine.Failure, map[string]any) { return staticRule() },
 		NoReproduce: true,
